@@ -275,3 +275,123 @@ Example C15_nonvacuous_verbs :
   /\ run_verb VUtf8ToLatin1 [(B "k", bs [195; 169]%N); (B "e", bs [226; 130; 172]%N)] = [(B "k", bs [233]%N); (B "e", B "(error)")]
   /\ nth_error [(B "a", B "x"); (B "b", B "y")] 1 = Some (B "b", B "y").
 Proof. vm_compute. repeat split; reflexivity. Qed.
+
+(* ================================================================== regex: matcher, sub/gsub/regextract, =~ registers
+   (RegexModel.v, RegexProofs.v, RegexProofs2.v).  D ci r i w rest is the denotational semantics of the regex subset
+   (literals, ., classes, ? * +, |, groups, ^ $, case folding): r matches the word w at character position i of the
+   text, followed by rest.  The matcher m is the backtracking (leftmost-first) matcher the harness runs. *)
+From Miller Require Import C15.RegexModel C15.RegexProofs C15.RegexProofs2.
+Open Scope nat_scope.
+
+(* soundness, for every continuation: whatever the matcher accepts is a word of the language, and the continuation
+   was run right after it *)
+Theorem C15_regex_matcher_sound :
+  forall ci r i s c k res, m ci r i s c k = Some res ->
+  exists w s' c', s = w ++ s' /\ D ci r i w s' /\ k (i + List.length w) s' c' = Some res.
+Proof. exact m_sound. Qed.
+Print Assumptions C15_regex_matcher_sound.
+
+(* completeness: if some word of the language is a prefix of the text and the continuation accepts after it, the
+   matcher succeeds (stars over bodies that can match the empty word included) *)
+Theorem C15_regex_matcher_complete :
+  forall ci r i w rest, D ci r i w rest -> forall c k, (forall c', exists res, k (i + List.length w) rest c' = Some res) ->
+  exists res, m ci r i (w ++ rest) c k = Some res.
+Proof. exact m_complete. Qed.
+Print Assumptions C15_regex_matcher_complete.
+
+(* the unanchored search finds a match iff one exists anywhere, and what it returns is a match of the language whose
+   start is leftmost: no word of the language starts at an earlier position *)
+Theorem C15_regex_search_finds_iff :
+  forall ci r s i, (exists pre w post, s = pre ++ w ++ post /\ D ci r (i + List.length pre) w post) <-> search ci r i s <> None.
+Proof. exact search_finds_iff. Qed.
+Print Assumptions C15_regex_search_finds_iff.
+Theorem C15_regex_search_leftmost :
+  forall ci r s i a b c, search ci r i s = Some (a, b, c) ->
+  exists pre w post, s = pre ++ w ++ post /\ a = i + List.length pre /\ b = a + List.length w /\ D ci r a w post
+                     /\ no_match_before ci r i s (List.length pre).
+Proof. exact search_some. Qed.
+Print Assumptions C15_regex_search_leftmost.
+(* PARTIAL: among the matches that start at the leftmost position the matcher returns the FIRST in backtracking order
+   (Perl / Go leftmost-first: left alternative before right, greedy iteration); that order is the definition of m and is
+   tied to Go's regexp by correspondence only -- there is no independent ordered semantics it is proved against. *)
+
+(* the text the matcher walks over is a partition of the subject's bytes (invalid UTF-8 included) *)
+Theorem C15_regex_text_is_partition_of_bytes : forall s, flat (chunks s) = s.
+Proof. exact flat_chunks. Qed.
+Print Assumptions C15_regex_text_is_partition_of_bytes.
+
+(* gsub / sub with a regex that matches nowhere are the identity, regextract is absent *)
+Theorem C15_gsub_sub_identity_without_match :
+  forall ci r s rep, no_match ci r (chunks s) -> gsub ci r s rep = s /\ sub ci r s rep = s /\ regextract ci r s = None.
+Proof. exact gsub_sub_identity_without_match. Qed.
+Print Assumptions C15_gsub_sub_identity_without_match.
+
+(* sub replaces exactly the leftmost match, byte-exact around it; regextract returns that match *)
+Theorem C15_sub_replaces_leftmost_match :
+  forall ci r s rep a b c, search ci r 0 (chunks s) = Some (a, b, c) ->
+  exists pre w post, chunks s = pre ++ w ++ post /\ a = List.length pre /\ b = a + List.length w /\ D ci r a w post
+    /\ no_match_before ci r 0 (chunks s) (List.length pre)
+    /\ s = flat pre ++ flat w ++ flat post
+    /\ sub ci r s rep = flat pre ++ interp rep (captures10 (chunks s) a b c) ++ flat post
+    /\ regextract ci r s = Some (flat w).
+Proof. exact sub_replaces_leftmost_match. Qed.
+Print Assumptions C15_sub_replaces_leftmost_match.
+Theorem C15_sub_plain_replacement :
+  forall ci r s rep a b c, search ci r 0 (chunks s) = Some (a, b, c) -> has_capture_ref rep = false ->
+  exists pre w post, s = flat pre ++ flat w ++ flat post /\ D ci r (List.length pre) w post /\ sub ci r s rep = flat pre ++ rep ++ flat post.
+Proof. exact sub_plain_replacement. Qed.
+Print Assumptions C15_sub_plain_replacement.
+
+(* gsub on empty matches (Go's FindAll rule): once before every character and once at the end *)
+Theorem C15_gsub_empty_regex :
+  forall ci s rep, gsub ci Eps s rep = E0 rep ++ List.concat (map (fun x => snd x ++ E0 rep) (chunks s)).
+Proof. exact gsub_empty_regex. Qed.
+Print Assumptions C15_gsub_empty_regex.
+
+(* the "\0".."\9" registers: untouched by anything but =~ / !=~ (print, sub, gsub, calls of user-defined functions,
+   which get a fresh frame); a string literal is left alone while they are unset; after a failed match every \digit
+   interpolates as empty *)
+Theorem C15_registers_kept_until_next_match :
+  forall n body st, forallb (fun x => negb (sets_registers x)) body = true -> snd (run_block n body st) = st.
+Proof. exact registers_kept_until_next_match. Qed.
+Print Assumptions C15_registers_kept_until_next_match.
+Theorem C15_literal_untouched_while_unset : forall lit, eval_lit lit None = unbackslash lit.
+Proof. exact eval_lit_unset. Qed.
+Print Assumptions C15_literal_untouched_while_unset.
+Theorem C15_failed_match_clears_registers :
+  forall n neg subj ci r st, no_match ci r (chunks (eval_lit subj st)) ->
+  run_stmt n (SMatch neg subj ci r) st = ([if neg then TRUE_ else FALSE_], Some (repeat [] 10)).
+Proof. exact failed_match_clears. Qed.
+Print Assumptions C15_failed_match_clears_registers.
+Theorem C15_empty_registers_erase_references : forall rep, interp rep (repeat [] 10) = strip_refs rep.
+Proof. exact interp_empty_registers. Qed.
+Print Assumptions C15_empty_registers_erase_references.
+
+(* "..."i and "..." as CompileMillerRegex reads them, for every pattern text *)
+Theorem C15_regex_case_insensitive_suffix :
+  forall p, compile_miller (DQ :: p ++ [DQ; "i"%char]) = (true, p) /\ compile_miller (DQ :: p ++ [DQ]) = (false, p).
+Proof. exact (fun p => conj (compile_quoted_i p) (compile_quoted p)). Qed.
+Print Assumptions C15_regex_case_insensitive_suffix.
+
+Example C15_nonvacuous_regex :
+  let a := At (AChr 97%N) in let b := At (AChr 98%N) in
+  gsub false (Star (At (AChr 120%N))) (B "abc") (B "-") = B "-a-b-c-"
+  /\ gsub false (Grp 1%N (Plus a)) (B "aabab") (B "<\1>") = B "<aa>b<a>b"
+  /\ sub false (Cat (Grp 1%N a) (Grp 2%N b)) (B "xxabab") (B "<\2\1\0\3>") = B "xx<baab>ab"
+  /\ sub true (Alt (At (AChr 107%N)) b) (bs [226; 132; 170; 66]%N) (B "_") = bs [95; 66]%N
+  /\ search false (Cat a b) 0 (chunks (B "xab")) = Some (1, 3, [])
+  /\ D false (Cat a b) 1 (chunks (B "ab")) []
+  /\ no_match false (Cat a a) (chunks (B "a"))
+  /\ gsub false (Cat a a) (B "a") (B "X") = B "a"
+  /\ fst (run_block 3 [SPrint (B "\1:\2"); SMatch false (B "abc") false (Cat (Grp 1%N a) (Grp 2%N b)); SPrint (B "\1:\2\101");
+                       SFrame [SPrint (B "in\1")]; SSub false (B "ab") false (Grp 1%N b) (B "[\1]"); SMatch false (B "q") false a; SPrint (B "<\1>")] None)
+     = [B "\1:\2"; B "true"; B "a:bA"; B "in\1"; B "a[a]"; B "false"; B "<>"]
+  /\ compile_miller (B """a.*b""i") = (true, B "a.*b").
+Proof.
+  cbv zeta. repeat split; try (vm_compute; reflexivity).
+  - change (chunks (B "ab")) with ([(97%N, B "a")] ++ [(98%N, B "b")]).
+    apply (DCat false _ _ 1 [(97%N, B "a")] [(98%N, B "b")] []); constructor; reflexivity.
+  - intros pre w post Heq HD. inversion HD; subst.
+    match goal with H1 : D _ (At _) _ ?w1 _, H2 : D _ (At _) _ ?w2 _ |- _ => inversion H1; inversion H2; subst end.
+    vm_compute in Heq. destruct pre as [|p0 [|p1 pre]]; cbn in Heq; discriminate.
+Qed.
